@@ -1,5 +1,5 @@
 """C02 - SSC simfile: serialize then parse gives back the same simfile (structural clauses)."""
-from ..rules import entry, readers, serial, writers, census, baseline
+from ..rules import entry, readers, serial, writers, census, baseline, views
 from ..rules.ident import ident_rule
 
 EXPLANATION = (
@@ -37,11 +37,13 @@ def c5(ctx):
     serial.null_sweep(ctx, 'ssc')
     serial.serializer_raw_text(ctx, 'ssc')
     serial.layout(ctx)
+    writers.charts_items(ctx)
 
 
 def c7(ctx):
     census.mechanism_census(ctx, ["serialize", "__str__", "items", "keys", "values", "__iter__", "__getitem__", "get", "__init__", "_parse", "__setitem__", "update", "setdefault", "move_to_end", "__eq__", "__ne__", "from_str", "from_msd", "_from_msd", "__delitem__", "pop", "popitem", "clear"], "SSC serialize / parse", modules=["simfile.base", "simfile.ssc", "simfile._private.serializable"])
     entry.constructor_funnel(ctx)
+    views.equality(ctx, sm_chart=False)
 
 def c_api(ctx):
     baseline.surface(ctx, "C02: documented surface", modules=['simfile.ssc', 'simfile.base', 'simfile._private.serializable'])
@@ -52,6 +54,6 @@ CLAUSES = [
     ("C02.4", "chart opening/closing in SSCSimfile._parse", c4),
     ("C02.5", "R-NULL at the sinks; only parameters and whitespace are written; layout", c5),
     ("C02.6", "the text is auto-detected as SSC when VERSION is the first key (whatever its value)", c6),
-    ("C02.7", "no unexamined override of the writer / reader / mapping methods in the SSC classes (R-CENSUS)", c7),
+    ("C02.7", "no unexamined override of the writer / reader / mapping methods in the SSC classes (R-CENSUS); 'equal' means same type, same ordered mapping, same charts", c7),
     ("C02.api", "public surface: signatures and defaults, constants, enumerations, blank templates, base classes as confirmed (R-API)", c_api),
 ]
